@@ -54,6 +54,18 @@ PreClause(e, b) ==
      ELSE IF "C05" \in Focus /\ ~b.evok THEN "C05:evidence_not_as_recomputed"
      ELSE ""
 
+(* ---- C05, last sentence: a block produced by the node's own assembly satisfies every header rule (whatever the node then does with it) ---- *)
+AssembledClause(e, b) ==
+  IF ~(e.assembled /\ "C05" \in Focus /\ b.parent \in DOMAIN blocks /\ b.height > Horizon) THEN ""
+  ELSE IF ~b.powok THEN ""            \* "once its id is below target"
+  ELSE IF ~(LET et == ExpectedTarget(blocks, byHeight, b.parent, b.ts) IN et.ok /\ b.target = et.t) THEN "C05:assembled_block_target_not_as_prescribed"
+  ELSE IF b.height # blocks[b.parent].height + 1 THEN "C05:assembled_block_height_not_parent_plus_one"
+  ELSE IF ~(Len(b.txs) >= 1 /\ Len(b.txs[1].ins) >= 1 /\ b.txs[1].ins[1].cbh = b.height) THEN "C05:assembled_block_reward_height_differs"
+  ELSE IF ~(blocks[b.parent].ts < b.ts) THEN "C05:assembled_block_timestamp_not_after_parent"
+  ELSE IF ~(b.ts <= e.now + MaxFuture) THEN "C05:assembled_block_timestamp_too_far_in_future"
+  ELSE IF ~b.evok THEN "C05:assembled_block_evidence_not_as_recomputed"
+  ELSE ""
+
 (* ---- P clauses on the post-state (primed Ledger variables vs the logged projection) ---- *)
 PostClause(e, b, accepted) ==
   LET p == e.post
@@ -135,7 +147,8 @@ StepAdd(e) ==
   LET b == ToBlk(e.blk)
       f == IF e.validated THEN FirstFailing(b, e.now) ELSE ""
   IN /\ Drift(e, IF f = "" /\ ~CanApply(b) THEN "apply_error" ELSE f)
-     /\ IF e.res = "ok"
+     /\ IF AssembledClause(e, b) # "" THEN Verdict(AssembledClause(e, b), FALSE)
+        ELSE IF e.res = "ok"
         THEN LET pc == IF e.validated THEN PreClause(e, b) ELSE ""
              IN IF pc # "" THEN Verdict(pc, FALSE)
                 ELSE IF ~CanApply(b) THEN
